@@ -47,8 +47,8 @@ var FieldLeaves = []Leaf{
 }
 
 // NumLeaves are explicit fuzzy distances / boost powers.
-var FuzzyNums = []Leaf{{Text: "2", Kind: "int", Int: 2}, {Text: "7", Kind: "int", Int: 7}}
-var BoostNums = []Leaf{{Text: "2", Kind: "int", Int: 2}, {Text: "2.5", Kind: "float", Flt: 2.5}, {Text: "10", Kind: "int", Int: 10}}
+var FuzzyNums = []Leaf{{Text: "2", Kind: "int", Int: 2}, {Text: "7", Kind: "int", Int: 7}, {Text: "0", Kind: "int", Int: 0}, {Text: "00", Kind: "int", Int: 0}, {Text: "1", Kind: "int", Int: 1}, {Text: "100", Kind: "int", Int: 100}}
+var BoostNums = []Leaf{{Text: "2", Kind: "int", Int: 2}, {Text: "2.5", Kind: "float", Flt: 2.5}, {Text: "10", Kind: "int", Int: 10}, {Text: "1", Kind: "int", Int: 1}, {Text: "0.5", Kind: "float", Flt: 0.5}}
 
 // Ft is a syntax tree over the whole printed grammar (mirrors GoLucene.Ft in Proofs/Full.lean).
 type Ft struct {
